@@ -22,6 +22,7 @@ CONSTANTS
   MaxHavoc = 1
   KeepRec = FALSE
   NestedTrigs = {}
+  EvMayHold = FALSE
 INVARIANT NoBad
 INVARIANT Structural
 CHECK_DEADLOCK FALSE
